@@ -195,12 +195,19 @@ pub fn run(o: &Opts, rng: &mut Rng) -> Sink {
             4 => Some((999, 0)),
             _ => Some((server.latest.0, (server.latest.1 + 1) % 4)),
         };
-        let events = rng.chance(1, 3);
+        // per app: an update check (with a ping), an event report, or both in one entry (Omaha allows it; the builder makes it
+        // with `add_update_check` + `add_event` on the same app); per request: all alike, or mixed
+        let req_mode = rng.below(6);
+        let app_modes: Vec<u8> = apps.iter().map(|_| match req_mode { 0 | 1 | 2 => 0u8, 3 => 1, 4 => 2, _ => rng.below(3) as u8 }).collect();
         let handler = client.map(|(kid, kidx)| StandardCupv2Handler::new(&PublicKeys { latest: PublicKeyAndId { id: kid, key: signing_key(kidx).verifying_key() }, historical: vec![] }));
         let mut b = RequestBuilder::new(&config, &params);
-        for a in &apps {
-            if events { b = b.add_event(a, Event { event_type: EventType::UpdateComplete, event_result: EventResult::Success, ..Event::default() }); }
-            else { b = b.add_update_check(a).add_ping(a); }
+        for (a, m) in apps.iter().zip(app_modes.iter()) {
+            let ev = Event { event_type: EventType::UpdateComplete, event_result: EventResult::Success, ..Event::default() };
+            match m {
+                1 => { b = b.add_event(a, ev); }
+                2 => { b = b.add_update_check(a).add_event(a, ev); }
+                _ => { b = b.add_update_check(a).add_ping(a); }
+            }
         }
         let built = b.build(handler.as_ref());
         let Ok((req, meta)) = built else { continue; };
@@ -208,15 +215,15 @@ pub fn run(o: &Opts, rng: &mut Rng) -> Sink {
         let req_body = block_on(hyper::body::to_bytes(body)).unwrap().to_vec();
         // what a transport delivers to the server: origin form
         let origin = parts.uri.path_and_query().map(|p| p.to_string()).unwrap_or("/".into());
-        let apps_tok: Vec<String> = apps.iter().map(|a| format!("{}~{}~{}~{}~{}", hexb(a.id.as_bytes()), hexb(a.version.to_string().as_bytes()),
-            if events { "-".to_string() } else { (params.disable_updates as u8).to_string() }, opt_hex(&a.cohort.id), events as u8)).collect();
+        let apps_tok: Vec<String> = apps.iter().zip(app_modes.iter()).map(|(a, m)| format!("{}~{}~{}~{}~{}", hexb(a.id.as_bytes()), hexb(a.version.to_string().as_bytes()),
+            if *m == 1 { "-".to_string() } else { (params.disable_updates as u8).to_string() }, opt_hex(&a.cohort.id), (*m != 0) as u8)).collect();
         let omaha = server.build();
         let mtx = tokio::sync::Mutex::new(omaha);
         let sreq = hyper::Request::builder().method("POST").uri(origin.clone()).body(hyper::Body::from(req_body.clone())).unwrap();
         let res = std::panic::catch_unwind(std::panic::AssertUnwindSafe(|| block_on(mock_omaha_server::handle_request(sreq, &mtx))));
         let mut input = format!("{} uri={} apps={}", server.tok(), hexb(origin.as_bytes()), apps_tok.join(";"));
         let class = format!("{}/{}/{}/{}/{}", napps, client.map(|c| if c == server.latest { "latest" } else if server.hist.contains(&c) { "hist" } else if c.0 == 999 { "unknown" } else { "wrongkey" }).unwrap_or("nocup"),
-            url.len(), events as u8, server.resp.iter().map(|r| &r.1[..2]).collect::<Vec<_>>().join(""));
+            url.len(), app_modes.iter().map(|m| m.to_string()).collect::<String>(), server.resp.iter().map(|r| &r.1[..2]).collect::<Vec<_>>().join(""));
         let output: String;
         match res {
             Err(_) => { input += " client=-"; output = "panic".into(); }
